@@ -26,6 +26,7 @@ import MagpyVerif.Lemmas.DisplayIdx
 import MagpyVerif.Lemmas.DisplayUnit
 import MagpyVerif.Lemmas.DisplayWind
 import MagpyVerif.Lemmas.DisplayGroup
+import MagpyVerif.Lemmas.DisplayArrow
 namespace MagpyVerif.C19
 open MagpyVerif.Gen
 
@@ -899,15 +900,9 @@ rungs of column 0 and of column N-1); geometrically the seam is closed -/
 theorem cylinder_segment_full_turn_seam_open :
     openEdges (segTriangles 5 true) = [(0, 5), (14, 19), (5, 15), (9, 19), (4, 9), (10, 15), (0, 10), (4, 14)] := by decide
 
-/-- winding of the CylinderSegment graphic (arc count 5 = every `vert ≤ 25·(360/|φ₁-φ₂|)`; the cap indices do not depend on
-the size): the triangles are NOT consistently oriented — four directed edges are used twice, all of them by the two triangles
-of the START cap (`(0, 3N, 2N)`, `(N, 3N, 0)`), which are wound opposite to the rest of the surface (the end cap reuses the
-same index pattern shifted by `N - 1`, where it is the correct one); with the two start-cap triangles flipped every directed
-edge is used exactly once. -/
-theorem cylinder_segment_start_cap_winding_witness :
-    ((segTriangles 5 false).flatMap dirEdges).filter (fun e => ((segTriangles 5 false).flatMap dirEdges).count e != 1)
-      = [(0, 5), (15, 10), (10, 0), (5, 15), (15, 10), (10, 0), (5, 15), (0, 5)] ∧
-    ((segSpec 5 ++ [(0, 10, 15), (5, 0, 15)] ++ (segCaps 5).drop 2).flatMap dirEdges).Nodup := by decide
+/-- winding at arc count 5 (= every `vert ≤ 25·(360/|φ₁-φ₂|)`), decided: no directed edge is used twice (since repo fix 64dd71f;
+for every arc count: `cylinder_segment_consistently_wound` below) -/
+theorem cylinder_segment_winding_at_5 : ((segTriangles 5 false).flatMap dirEdges).Nodup := by decide
 
 /-! ### trace merging -/
 
@@ -1114,47 +1109,67 @@ theorem closed_and_wound_each_direction_once {fs : List Face} (hc : openEdges fs
     ∀ a b, (a, b) ∈ dirOf fs → (dirOf fs).count (a, b) = 1 ∧ (dirOf fs).count (b, a) = 1 :=
   closed_wound_each_direction_once hc hw hd
 
-/- FULL: `Wound (segTriangles N false)` — the CylinderSegment graphic is consistently wound.  FALSE of this tree for every arc
-   count `N ≥ 2` (the real function uses `N ≥ 5`): the two triangles `(0, 3N, 2N)`, `(N, 3N, 0)` of the cap at `phi1` are wound
-   against the rest of the surface.  Proved instead: the exact multiplicity of every directed edge. -/
-/-- `make_CylinderSegment` with the end caps drawn (`phi2 - phi1 != 360`), EVERY arc count `N ≥ 2`.  With the vertex rows
-`a_q = q` (inner top), `b_q = q + N` (outer top), `c_q = q + 2N` (inner bottom), `d_q = q + 3N` (outer bottom):
-* the four directed edges `a₀→b₀, b₀→d₀, d₀→c₀, c₀→a₀` = `segBadEdges N` (the boundary of the start-cap quad) are used TWICE —
-  once by a start-cap triangle and once by the adjoining top / outer / bottom / inner surface — and their reverses never;
-* every other directed edge that occurs is used exactly once and so is its reverse (in particular the cap diagonal `a₀d₀`, the
-  whole end cap at `phi2`, and all four curved / flat surfaces are mutually consistent);
-* hence `windingDefects` is exactly that set, the surface is NOT consistently wound,
-* and turning over exactly the two start-cap triangles (`segStartCapFlipped`: `(0, 2N, 3N)`, `(N, 0, 3N)`) gives a closed,
-  consistently wound surface: the set of offending faces is exactly the start cap. -/
-theorem cylinder_segment_winding_partial (N : Nat) (hN : 2 ≤ N) :
+/-- `make_CylinderSegment` with the end caps drawn (`phi2 - phi1 != 360`), EVERY arc count `N ≥ 2` (the function uses
+`N = max(5, …)`), after repo fix 64dd71f (the start cap is `(i5, j5, k5)`, the end cap `(i5, k5, j5) + N - 1`): the triangles are
+the `8(N-1)` of the four surfaces, the two of the cap at `phi1` (`segStartCap`: `(0, 2N, 3N)`, `(N, 0, 3N)`) and the two of the
+cap at `phi2`; the surface is CLOSED and CONSISTENTLY WOUND: no directed edge is used twice, `windingDefects` (what the `wind` rows
+of the `disp` stream compute on the real index arrays) is empty, and every directed edge that occurs is used exactly once and so
+is its reverse. -/
+theorem cylinder_segment_consistently_wound (N : Nat) (hN : 2 ≤ N) :
     segTriangles N false = segSpec N ++ (segStartCap N ++ segEndCap N) ∧
-    (∀ e ∈ segBadEdges N, (dirOf (segTriangles N false)).count e = 2 ∧ (dirOf (segTriangles N false)).count (e.2, e.1) = 0) ∧
-    (∀ a b, (a, b) ∈ dirOf (segTriangles N false) → (a, b) ∉ segBadEdges N →
-      (dirOf (segTriangles N false)).count (a, b) = 1 ∧ (dirOf (segTriangles N false)).count (b, a) = 1) ∧
-    (∀ e, e ∈ windingDefects (segTriangles N false) ↔ e ∈ segBadEdges N) ∧
-    ¬ Wound (segTriangles N false) ∧
-    Wound (segSpec N ++ segEndCap N ++ segStartCapFlipped N) ∧ openEdges (segSpec N ++ segEndCap N ++ segStartCapFlipped N) = [] := by
+    openEdges (segTriangles N false) = [] ∧
+    Wound (segTriangles N false) ∧
+    windingDefects (segTriangles N false) = [] ∧
+    (∀ a b, (a, b) ∈ dirOf (segTriangles N false) →
+      (dirOf (segTriangles N false)).count (a, b) = 1 ∧ (dirOf (segTriangles N false)).count (b, a) = 1) := by
   have heq : segTriangles N false = segSpec N ++ segCaps N := by rw [segTriangles_eq]; rfl
-  obtain ⟨hbad, hone⟩ := seg_dir_multiplicities hN
   have hclosed := segSpec_caps_closed hN
   have hidx := (cylinder_segment_mesh_closed_N N hN).2.2.2
+  have hw := seg_wound hN
   rw [heq] at hidx ⊢
-  have hbadmem : ∀ e ∈ segBadEdges N, e ∈ dirOf (segSpec N ++ segCaps N) := fun e he =>
+  exact ⟨rfl, hclosed, hw, (windingDefects_nil_iff _).2 hw,
+    closed_wound_each_direction_once hclosed hw (fun t ht => ⟨(hidx t ht).1, (hidx t ht).2.1, (hidx t ht).2.2.1⟩)⟩
+
+example : windingDefects (segTriangles 5 false) = [] := by decide
+example : (dirOf (segTriangles 5 false)).count (0, 5) = 1 ∧ (dirOf (segTriangles 5 false)).count (5, 0) = 1 := by decide
+
+/-- the same for the function's own arguments: whatever `vert`, radii and angle range (also reversed, zero-span and beyond-360
+ones), as soon as the caps are drawn (`phi2 - phi1 ≠ 360`, the code's own test) the index arrays form a closed, consistently
+wound surface -/
+theorem cylinder_segment_consistently_wound_of_args (vert : Nat) (phi1 phi2 : ℝ) (h : phi2 - phi1 ≠ 360) :
+    let r := segIJKOf vert phi1 phi2
+    openEdges (zip3 r.1 r.2.1 r.2.2) = [] ∧ Wound (zip3 r.1 r.2.1 r.2.2) ∧ windingDefects (zip3 r.1 r.2.1 r.2.2) = [] ∧
+    ∀ a b, (a, b) ∈ dirOf (zip3 r.1 r.2.1 r.2.2) →
+      (dirOf (zip3 r.1 r.2.1 r.2.2)).count (a, b) = 1 ∧ (dirOf (zip3 r.1 r.2.1 r.2.2)).count (b, a) = 1 := by
+  have hf : segFull phi1 phi2 = false := by
+    simp only [segFull, Kern.eq0_real, Kern.n, Kern.ofNat_real, decide_eq_false_iff_not]
+    intro hc
+    apply h
+    push_cast at hc
+    linarith
+  have := (cylinder_segment_consistently_wound (DisplayTrig.segN vert phi1 phi2)
+    (le_trans (by norm_num) (DisplayTrig.le_segN vert phi1 phi2))).2
+  simpa [segIJKOf, hf, segTriangles] using this
+
+example : ¬ ((90 : ℝ) - 0 = 360) := by norm_num
+
+/-- REGRESSION WITNESS (literal pre-fix pattern, `j.extend([k5, k5 + N - 1]); k.extend([j5, j5 + N - 1])`, i.e. the start cap
+`(0, 3N, 2N)`, `(N, 3N, 0)` = `segStartCapOld`): for EVERY arc count `N ≥ 2` that surface — although closed — was NOT consistently
+wound: the four directed edges `a₀→b₀, b₀→d₀, d₀→c₀, c₀→a₀` = `segBadEdges N` (the boundary of the start-cap quad; rows `a_q = q`,
+`b_q = q + N`, `c_q = q + 2N`, `d_q = q + 3N`) were used TWICE and their reverses never, every other directed edge exactly once;
+`windingDefects` was exactly that set.  So `cylinder_segment_consistently_wound` (and the `wind` rows) catch a return of the old
+pattern. -/
+theorem old_start_cap_was_inverted (N : Nat) (hN : 2 ≤ N) :
+    openEdges (segSpec N ++ (segStartCapOld N ++ segEndCap N)) = [] ∧
+    (∀ e ∈ segBadEdges N, (dirOf (segSpec N ++ (segStartCapOld N ++ segEndCap N))).count e = 2 ∧
+      (dirOf (segSpec N ++ (segStartCapOld N ++ segEndCap N))).count (e.2, e.1) = 0) ∧
+    (∀ e, e ∈ windingDefects (segSpec N ++ (segStartCapOld N ++ segEndCap N)) ↔ e ∈ segBadEdges N) ∧
+    ¬ Wound (segSpec N ++ (segStartCapOld N ++ segEndCap N)) ∧
+    segStartCap N = (segStartCapOld N).map flipFace := by
+  obtain ⟨hbad, hone⟩ := seg_dir_multiplicities hN
+  have hbadmem : ∀ e ∈ segBadEdges N, e ∈ dirOf (segSpec N ++ (segStartCapOld N ++ segEndCap N)) := fun e he =>
     List.count_pos_iff.1 (by rw [(hbad e he).1]; norm_num)
-  refine ⟨rfl, hbad, ?_, ?_, ?_, segFixed_wound hN, segFixed_closed hN⟩
-  · intro a b hab hnb
-    have h1 := hone (a, b) hab hnb
-    have hne : a ≠ b := by
-      simp only [dirOf, List.mem_flatMap, dirEdges, List.mem_cons, Prod.mk.injEq, List.not_mem_nil, or_false] at hab
-      obtain ⟨f, hf, h⟩ := hab
-      obtain ⟨d1, d2, d3, _⟩ := hidx f hf
-      rcases h with ⟨rfl, rfl⟩ | ⟨rfl, rfl⟩ | ⟨rfl, rfl⟩
-      · exact d1
-      · exact d2
-      · exact fun e => d3 e.symm
-    have h2 := count_two_of_openEdges_nil hclosed _ (mem_edgesOf_of_mem_dirOf hab)
-    rw [edgesOf_count_eq_dir _ a b hne] at h2
-    exact ⟨h1, by omega⟩
+  refine ⟨segOld_closed hN, hbad, ?_, ?_, rfl⟩
   · intro e
     rw [mem_windingDefects]
     constructor
@@ -1169,21 +1184,61 @@ theorem cylinder_segment_winding_partial (N : Nat) (hN : 2 ≤ N) :
     rw [(hbad _ h0).1] at this
     norm_num at this
 
-example : windingDefects (segTriangles 5 false) = [(0, 5), (15, 10), (10, 0), (5, 15)] := by decide
+example : windingDefects (segSpec 5 ++ (segStartCapOld 5 ++ segEndCap 5)) = [(0, 5), (15, 10), (10, 0), (5, 15)] := by decide
 example : segBadEdges 5 = [(0, 5), (5, 15), (15, 10), (10, 0)] := by decide
-/-- the same for the function's own arguments: whatever `vert`, radii and angle range, as soon as the caps are drawn -/
-theorem cylinder_segment_not_consistently_wound (vert : Nat) (phi1 phi2 : ℝ) (h : phi2 - phi1 ≠ 360) :
-    let r := segIJKOf vert phi1 phi2
-    ¬ Wound (zip3 r.1 r.2.1 r.2.2) := by
-  have hf : segFull phi1 phi2 = false := by
-    simp only [segFull, Kern.eq0_real, Kern.n, Kern.ofNat_real, decide_eq_false_iff_not]
-    intro hc
-    apply h
-    push_cast at hc
-    linarith
-  have := (cylinder_segment_winding_partial (DisplayTrig.segN vert phi1 phi2)
-    (le_trans (by norm_num) (DisplayTrig.le_segN vert phi1 phi2))).2.2.2.2.1
-  simpa [segIJKOf, hf, segTriangles] using this
+
+end MagpyVerif.C19
+
+
+/-! ### the other closed-surface generators, for EVERY size -/
+
+namespace MagpyVerif.C19
+open MagpyVerif.Display MagpyVerif.Mesh
+
+/-- Cylinder graphic, `make_Prism(base=N)` for EVERY `N ≥ 3`: closed and consistently wound — no directed edge is used twice,
+`windingDefects` is empty, every directed edge that occurs is used exactly once and so is its reverse -/
+theorem prism_consistently_wound (N : Nat) (hN : 3 ≤ N) :
+    ∃ fs, prismTriangles N = .ok fs ∧ openEdges fs = [] ∧ Wound fs ∧ windingDefects fs = [] ∧
+      ∀ a b, (a, b) ∈ dirOf fs → (dirOf fs).count (a, b) = 1 ∧ (dirOf fs).count (b, a) = 1 :=
+  ⟨prismSpec N, prismTriangles_eq (by omega), prismSpec_closed hN, prism_wound hN,
+    (windingDefects_nil_iff _).2 (prism_wound hN),
+    closed_wound_each_direction_once (prismSpec_closed hN) (prism_wound hN)
+      (fun t ht => let h := prismSpec_indices (show 2 ≤ N by omega) t ht; ⟨h.1, h.2.1, h.2.2.1⟩)⟩
+
+example : (prismTriangles 3).map windingDefects = .ok [] := by decide
+/-- `N = 2` is excluded for a reason: the two ring edges coincide and directed edges repeat -/
+example : (prismTriangles 2).map (fun fs => (windingDefects fs).length) = .ok 4 := by decide
+
+/-- Sphere graphic, `make_Ellipsoid(vert=N)` for EVERY `N ≥ 4`: closed and consistently wound -/
+theorem ellipsoid_consistently_wound (N : Nat) (hN : 4 ≤ N) :
+    ∃ fs, ellipsoidTriangles N = .ok fs ∧ openEdges fs = [] ∧ Wound fs ∧ windingDefects fs = [] ∧
+      ∀ a b, (a, b) ∈ dirOf fs → (dirOf fs).count (a, b) = 1 ∧ (dirOf fs).count (b, a) = 1 :=
+  ⟨ellSpec N, ellipsoidTriangles_eq hN, ellSpec_closed hN, ell_wound hN, (windingDefects_nil_iff _).2 (ell_wound hN),
+    closed_wound_each_direction_once (ellSpec_closed hN) (ell_wound hN)
+      (fun t ht => let h := ellSpec_indices hN t ht; ⟨h.1, h.2.1, h.2.2.1⟩)⟩
+
+example : (ellipsoidTriangles 4).map windingDefects = .ok [] := by decide
+
+/-- `make_Pyramid(base=N)`, every `N ≥ 1` (the cone of the arrow heads; an OPEN surface: its base ring is the boundary, see
+`pyramid_index_structure`): no directed edge is used twice -/
+theorem pyramid_consistently_wound (N : Nat) (hN : 0 < N) :
+    ∃ fs, pyramidTriangles N = .ok fs ∧ Wound fs ∧ windingDefects fs = [] :=
+  ⟨pyramidSpec N, pyramidTriangles_eq hN, pyramid_wound N, (windingDefects_nil_iff _).2 (pyramid_wound N)⟩
+
+example : (pyramidTriangles 4).map windingDefects = .ok [] := by decide
+
+/-- `make_Arrow(base=N)` = cone + shaft prism, every `N ≥ 3`: no directed edge is used twice (the cone's base ring stays
+open: the cone is wider than the shaft and has no base cap) -/
+theorem arrow_consistently_wound (N : Nat) (hN : 3 ≤ N) :
+    ∃ fs, arrowTriangles N = .ok fs ∧ Wound fs ∧ windingDefects fs = [] :=
+  ⟨_, arrow_index_structure N (by omega), arrow_wound hN, (windingDefects_nil_iff _).2 (arrow_wound hN)⟩
+
+example : (arrowTriangles 3).map windingDefects = .ok [] := by decide
+
+/-- Cuboid and Tetrahedron graphics (fixed index tables) -/
+theorem cuboid_tetra_consistently_wound :
+    Wound cuboidTriangles ∧ windingDefects cuboidTriangles = [] ∧ Wound tetraTriangles ∧ windingDefects tetraTriangles = [] := by
+  refine ⟨?_, by decide, ?_, by decide⟩ <;> (unfold Wound; decide)
 
 end MagpyVerif.C19
 
@@ -1193,7 +1248,7 @@ end MagpyVerif.C19
 namespace MagpyVerif.C19
 open MagpyVerif.Display MagpyVerif.Gen
 
-/-- the grouping loop of `group_traces`: the groups are the distinct key strings in order of FIRST APPEARANCE, each with exactly
+/-- the grouping loop of `group_traces`: the groups are the distinct key tuples in order of FIRST APPEARANCE, each with exactly
 the inputs that have this key, in input order.  Hence every input trace lands in exactly one group (the one of its key), and the
 group keys are pairwise different. -/
 theorem group_traces_partition (ts : List GTrace) :
@@ -1208,7 +1263,7 @@ theorem group_traces_partition (ts : List GTrace) :
     simp only [List.mem_filter, ht, true_and, beq_iff_eq]
     exact eq_comm
   · rw [h, List.map_map]
-    have : ((fun g : String × List GTrace => g.1) ∘ fun k => (k, ts.filter (fun t => groupKey t == k))) = id := rfl
+    have : ((fun g : List String × List GTrace => g.1) ∘ fun k => (k, ts.filter (fun t => groupKey t == k))) = id := rfl
     rw [this, List.map_id]
     exact nodup_eraseDups _
 
@@ -1247,14 +1302,49 @@ theorem group_traces_merges_within_group (ts : List GTrace) :
       obtain ⟨o, ho, h'⟩ := List.mem_flatMap.1 ((mem_mergeTraces_members g.2 t).2 h)
       exact List.mem_flatMap.2 ⟨o, List.mem_flatMap.2 ⟨g, hg, ho⟩, h'⟩
 
-/-- the key string is built WITHOUT separators (`"".join`), so different property tuples can give the same key: a trace in
-subplot (row 1, col 12) and one in subplot (row 11, col 2) with otherwise equal properties share the key and are merged into ONE
-trace (which keeps the first one's row / col).  On the real code: showing the same object in these two subplots raises
-`KeyError: (11, 2)` (known finding; `group` rows with such pairs are in the stream). -/
-theorem group_key_collision_witness :
-    groupKey { ty := "mesh3d", props := [("row", "1"), ("col", "12")], facecolorNone := true, id := 0 } =
+/-- the group key is the TUPLE of the values (repo fix 4b91a64), so equal keys mean equal types and equal value tuples: every
+property that enters the key — legendgroup, opacity, row, col, color and the type-specific ones — has the same `str(value)` in
+both traces (a missing key counts as `""`, facecolor as "is None") -/
+theorem group_key_injective (t t' : GTrace) (h : groupKey t = groupKey t') :
+    t.ty = t'.ty ∧ (∀ k ∈ commonKeys ++ specKeys t.ty, keyPart t k = keyPart t' k) ∧
+    keyPart t "legendgroup" = keyPart t' "legendgroup" ∧ keyPart t "opacity" = keyPart t' "opacity" ∧
+    keyPart t "row" = keyPart t' "row" ∧ keyPart t "col" = keyPart t' "col" ∧ keyPart t "color" = keyPart t' "color" := by
+  simp only [groupKey, List.cons.injEq] at h
+  obtain ⟨hty, hm⟩ := h
+  rw [← hty] at hm
+  have hall : ∀ k ∈ commonKeys ++ specKeys t.ty, keyPart t k = keyPart t' k := List.map_inj_left.1 hm
+  have hc : ∀ k ∈ commonKeys, keyPart t k = keyPart t' k := fun k hk => hall k (List.mem_append_left _ hk)
+  exact ⟨hty, hall, hc _ (by simp [commonKeys]), hc _ (by simp [commonKeys]), hc _ (by simp [commonKeys]),
+    hc _ (by simp [commonKeys]), hc _ (by simp [commonKeys])⟩
+
+/-- traces of different subplots are never merged: two inputs that end in the same output trace of `group_traces` have the
+same row and the same col (and opacity, legendgroup, color) -/
+theorem traces_of_different_subplots_never_merge (ts : List GTrace) (o : GOut) (ho : o ∈ groupTraces ts)
+    (t t' : GTrace) (ht : t ∈ o.members) (ht' : t' ∈ o.members) :
+    keyPart t "row" = keyPart t' "row" ∧ keyPart t "col" = keyPart t' "col" ∧
+    keyPart t "opacity" = keyPart t' "opacity" ∧ keyPart t "legendgroup" = keyPart t' "legendgroup" ∧
+    keyPart t "color" = keyPart t' "color" := by
+  obtain ⟨⟨k, _, hk⟩, _, _⟩ := (group_traces_merges_within_group ts).1 o ho
+  have h := group_key_injective t t' ((hk t ht).1.trans (hk t' ht').1.symm)
+  exact ⟨h.2.2.2.2.1, h.2.2.2.2.2.1, h.2.2.2.1, h.2.2.1, h.2.2.2.2.2.2⟩
+
+/-- non-vacuity: (row 1, col 12) and (row 11, col 2) are two groups -/
+example : (groupTraces [{ ty := "mesh3d", props := [("row", "1"), ("col", "12")], facecolorNone := true, id := 0 },
+    { ty := "mesh3d", props := [("row", "11"), ("col", "2")], facecolorNone := true, id := 1 }]).length = 2 := by
+  simp [groupTraces, groupBy, insertGroup, groupKey, commonKeys, specKeys, keyPart, List.lookup, mergeTraces, mergeDispatch]
+
+/-- REGRESSION WITNESS (literal pre-fix key, `gr = "".join(gr)` = `groupKeyConcat`): built WITHOUT separators, different value
+tuples gave the same key — a trace in subplot (row 1, col 12) and one in subplot (row 11, col 2) with otherwise equal properties
+shared it and were merged into ONE trace (which kept the first one's row / col); on the real code showing one object in these
+two subplots raised `KeyError: (11, 2)`.  The tuple keys of the two differ. -/
+theorem concat_key_collision_witness :
+    groupKeyConcat { ty := "mesh3d", props := [("row", "1"), ("col", "12")], facecolorNone := true, id := 0 } =
+      groupKeyConcat { ty := "mesh3d", props := [("row", "11"), ("col", "2")], facecolorNone := true, id := 1 } ∧
+    groupKey { ty := "mesh3d", props := [("row", "1"), ("col", "12")], facecolorNone := true, id := 0 } ≠
       groupKey { ty := "mesh3d", props := [("row", "11"), ("col", "2")], facecolorNone := true, id := 1 } := by
-  simp [groupKey, commonKeys, specKeys, keyPart, List.lookup]
+  constructor
+  · simp [groupKeyConcat, commonKeys, specKeys, keyPart, List.lookup]
+  · simp [groupKey, commonKeys, specKeys, keyPart, List.lookup]
 
 /-- upper-case prefixes: the regenerated table lists every power of `_UNIT_PREFIX` (incl. M, G, T, P, E, Z, Y = 6 … 24) and
 d, c, and `unit_factor_table` gives each of them the factor `10^(-power)`: a prefix read case-insensitively ('Mm' as milli)
@@ -1263,5 +1353,114 @@ theorem unit_table_powers :
     Units.table.map (·.1) = [-24, -21, -18, -15, -12, -9, -6, -3, 3, 6, 9, 12, 15, 18, 21, 24, -1, -2] ∧
     (Units.table.filter (fun r => decide (6 ≤ r.1))).map (fun r => (r.1, r.2.2)) =
       [(6, -6), (9, -9), (12, -12), (15, -15), (18, -18), (21, -21), (24, -24)] := by decide
+
+end MagpyVerif.C19
+
+
+/-! ## Current arrows and sensor pixels (Model/DisplayArrow.lean at α = ℝ; `arrowc`, `arrowl`, `pixels` rows of the `disp` stream) -/
+
+namespace MagpyVerif.C19
+open MagpyVerif MagpyVerif.DisplayTrig
+
+/-- the arrow head drawn on a `current.Circle` (`draw_arrow_on_circle`; `make_Circle` passes `sign = np.sign(current)` and
+`angle_pos_deg = 360·round(offset·base)/base`), in the loop's own frame, with `φ = angle_pos_deg·π/180`: three points barb, tip,
+barb in the loop plane `z = 0`; the TIP lies ON the circle of diameter `d` at azimuth `φ`; the two barbs are mirror images in the
+tangent line through the tip (`b₁ − b₂` is radial); and tip − (midpoint of the barbs) = `(d/2)·hy·e_t` with
+`e_t = (−sin φ, cos φ)` the COUNTER-CLOCKWISE tangent and `hy = circHy·sgn(sign)`: the arrow points counter-clockwise (seen
+from +z: the direction in which a positive current flows in a Circle) iff `sign > 0`, clockwise iff `sign < 0`, and degenerates
+to a radial bar for `sign = 0`. -/
+theorem circle_arrow_on_circle (sign d a : ℝ) (scaled : Bool) (θ : ℝ) :
+    ∃ b1 tip b2 : V3 ℝ, arrowOnCircle sign d a scaled θ = [b1, tip, b2] ∧
+      tip = ⟨d / 2 * Real.cos (θ * (Real.pi / 180)), d / 2 * Real.sin (θ * (Real.pi / 180)), 0⟩ ∧
+      tip.x ^ 2 + tip.y ^ 2 = (d / 2) ^ 2 ∧ b1.z = 0 ∧ tip.z = 0 ∧ b2.z = 0 ∧
+      tip.x - (b1.x + b2.x) / 2 = d / 2 * (circHy d a scaled * sgn sign) * (-Real.sin (θ * (Real.pi / 180))) ∧
+      tip.y - (b1.y + b2.y) / 2 = d / 2 * (circHy d a scaled * sgn sign) * Real.cos (θ * (Real.pi / 180)) ∧
+      b1.x - b2.x = d * (3 / 5 * circHy d a scaled) * Real.cos (θ * (Real.pi / 180)) ∧
+      b1.y - b2.y = d * (3 / 5 * circHy d a scaled) * Real.sin (θ * (Real.pi / 180)) := by
+  refine ⟨_, _, _, arrowOnCircle_eq sign d a scaled θ, rfl, ?_, rfl, rfl, rfl, ?_, ?_, ?_, ?_⟩
+  · have := Real.sin_sq_add_cos_sq (θ * (Real.pi / 180))
+    simp only
+    nlinarith
+  all_goals (simp only; ring)
+
+/-- the direction: for a positive current (and `d > 0`, a positive arrow size) the component of (tip − barb midpoint) along the
+counter-clockwise tangent is positive, for a negative current negative -/
+theorem circle_arrow_direction (sign d a : ℝ) (θ : ℝ) (hd : 0 < d) (ha : 0 < a) :
+    (0 < sign → 0 < d / 2 * (circHy d a true * sgn sign)) ∧ (sign < 0 → d / 2 * (circHy d a true * sgn sign) < 0) ∧
+    (0 < sign → 0 < d / 2 * (circHy d a false * sgn sign)) ∧ (sign < 0 → d / 2 * (circHy d a false * sgn sign) < 0) := by
+  have h1 : 0 < circHy d a true := by simp [circHy]; positivity
+  have h2 : 0 < circHy d a false := by simp [circHy]; positivity
+  refine ⟨fun h => ?_, fun h => ?_, fun h => ?_, fun h => ?_⟩
+  · rw [sgn_pos h]; positivity
+  · rw [sgn_neg h]; nlinarith
+  · rw [sgn_pos h]; positivity
+  · rw [sgn_neg h]; nlinarith
+
+example : arrowOnCircle (1 : ℝ) 2 1 true 0 = [⟨2 / 2 * ((1 + 3 / 5 * (1 / 5 * 1)) * Real.cos (0 * (Real.pi / 180)) + 1 / 5 * 1 * sgn (1 : ℝ) * Real.sin (0 * (Real.pi / 180))),
+    2 / 2 * ((1 + 3 / 5 * (1 / 5 * 1)) * Real.sin (0 * (Real.pi / 180)) - 1 / 5 * 1 * sgn (1 : ℝ) * Real.cos (0 * (Real.pi / 180))), 0⟩,
+    ⟨2 / 2 * Real.cos (0 * (Real.pi / 180)), 2 / 2 * Real.sin (0 * (Real.pi / 180)), 0⟩,
+    ⟨2 / 2 * ((1 - 3 / 5 * (1 / 5 * 1)) * Real.cos (0 * (Real.pi / 180)) + 1 / 5 * 1 * sgn (1 : ℝ) * Real.sin (0 * (Real.pi / 180))),
+     2 / 2 * ((1 - 3 / 5 * (1 / 5 * 1)) * Real.sin (0 * (Real.pi / 180)) - 1 / 5 * 1 * sgn (1 : ℝ) * Real.cos (0 * (Real.pi / 180))), 0⟩] := by
+  simpa [circHy] using arrowOnCircle_eq (1 : ℝ) 2 1 true 0
+
+/-- the arrow of a Polyline segment (`draw_arrowed_line`, template in the segment's own frame: the segment of length `L` runs
+along +y, centred; the function then turns it into the direction of `vec` with scipy and shifts it to the segment's middle — that
+rigid motion is not modelled): the first and the last point are the segment's END POINTS `(0, ∓L/2, 0)`; the tip is ON the
+segment at `(arrow_pos − 1/2)·L` (its middle for the default 0.5); for `arrow_pos = 0.5` the two barbs sit at
+`(∓0.6·size·L, −sgn(sign)·size·L, 0)`: BEHIND the tip with respect to the direction of `vec` iff `sign > 0`. -/
+theorem polyline_arrow_on_segment (sign a p L : ℝ) :
+    (arrowedLineLocal sign a p L)[0]? = some ⟨0, -(L / 2), 0⟩ ∧ (arrowedLineLocal sign a p L)[6]? = some ⟨0, L / 2, 0⟩ ∧
+    (arrowedLineLocal sign a p L)[1]? = some ⟨0, (p - 1 / 2) * L, 0⟩ ∧
+    (0 ≤ p → p ≤ 1 → |(p - 1 / 2) * L| ≤ |L| / 2) ∧
+    arrowedLineLocal sign a (1 / 2) L =
+      [⟨0, -(L / 2), 0⟩, ⟨0, 0, 0⟩, ⟨-(3 / 5 * a * L), -(sgn sign * a * L), 0⟩, ⟨0, 0, 0⟩,
+       ⟨3 / 5 * a * L, -(sgn sign * a * L), 0⟩, ⟨0, 0, 0⟩, ⟨0, L / 2, 0⟩] := by
+  obtain ⟨h1, h0, h6⟩ := arrowedLineLocal_tip sign a p L
+  refine ⟨h0, h6, h1, ?_, arrowedLineLocal_eq sign a L⟩
+  intro hp0 hp1
+  rw [abs_mul]
+  have : |p - 1 / 2| ≤ 1 / 2 := abs_le.2 ⟨by linarith, by linarith⟩
+  nlinarith [abs_nonneg L]
+
+/-- Sensor pixels (`make_Pixels`, the pixel part of `make_Sensor`), in the sensor's own frame: one cube per pixel, in the order
+of the (unique, sorted) pixel rows; the 8 vertices of the cube of pixel `p` are `p + (±s/2, ±s/2, ±s/2)`, so the cube is CENTRED
+on the pixel position (the vertex sum is `8p`) and has side `s = pixelDim`; `place_is_pose` then puts every vertex at the
+sensor's pose.  Size rule: `sizemode = "absolute"`: `s = style.pixel.size`; `"scaled"` with at least two different pixels:
+`s = size · m/2` where `m` is the SMALLEST distance between two pixels (so for `size ≤ 1` the cubes of different pixels do not
+reach each other's centres). -/
+theorem sensor_pixel_cubes (p : V3 ℝ) (ps : List (V3 ℝ)) (s : ℝ) :
+    pixelCubes (p :: ps) s = cubeAt p s ++ pixelCubes ps s ∧ (cubeAt p s).length = 8 ∧
+    (∀ v ∈ cubeAt p s, |v.x - p.x| = |s| / 2 ∧ |v.y - p.y| = |s| / 2 ∧ |v.z - p.z| = |s| / 2) ∧
+    ((cubeAt p s).map (·.x)).sum = 8 * p.x ∧ ((cubeAt p s).map (·.y)).sum = 8 * p.y ∧ ((cubeAt p s).map (·.z)).sum = 8 * p.z := by
+  have hs1 : |s / 2| = |s| / 2 := by rw [abs_div]; norm_num
+  have hs2 : |-(s / 2)| = |s| / 2 := by rw [abs_neg, hs1]
+  refine ⟨rfl, by rw [cubeAt_eq]; rfl, ?_, ?_, ?_, ?_⟩
+  · intro v hv
+    rw [cubeAt_eq] at hv
+    simp only [List.mem_cons, List.not_mem_nil, or_false] at hv
+    rcases hv with rfl | rfl | rfl | rfl | rfl | rfl | rfl | rfl <;>
+      simp only [add_sub_cancel_left, sub_sub_cancel_left, hs1, hs2, and_self]
+  all_goals (rw [cubeAt_eq]; simp; ring)
+
+theorem sensor_pixel_size_rule (p q : V3 ℝ) (r : List (V3 ℝ)) (size dimExt : ℝ) :
+    pixelDim (p :: q :: r) false size dimExt = size ∧
+    ∃ m, minOf ((pairsOf (p :: q :: r)).map fun pr => dist3 pr.1 pr.2) = some m ∧
+      (∀ pr ∈ pairsOf (p :: q :: r), m ≤ dist3 pr.1 pr.2) ∧
+      (m ≠ 0 → pixelDim (p :: q :: r) true size dimExt = m / 2 * size) := by
+  constructor
+  · simp [pixelDim]
+  · have hne : (pairsOf (p :: q :: r)).map (fun pr => dist3 pr.1 pr.2) ≠ [] := by simp [pairsOf]
+    cases hm : minOf ((pairsOf (p :: q :: r)).map fun pr => dist3 pr.1 pr.2) with
+    | none =>
+      cases hl : (pairsOf (p :: q :: r)).map (fun pr => dist3 pr.1 pr.2) with
+      | nil => exact absurd hl hne
+      | cons a l => rw [hl] at hm; simp [minOf] at hm
+    | some m =>
+      obtain ⟨_, h2⟩ := minOf_spec _ m hm
+      refine ⟨m, rfl, fun pr hpr => h2 _ (List.mem_map.2 ⟨pr, hpr, rfl⟩), fun h0 => ?_⟩
+      simp only [pixelDim, if_true, hm, Kern.eq0_real, h0, decide_false, Bool.false_eq_true, if_false, n_real]
+      norm_num
+
+example : pixelDim [(⟨0, 0, 0⟩ : V3 ℝ), ⟨1, 0, 0⟩] false 2 1 = 2 := (sensor_pixel_size_rule _ _ _ _ _).1
 
 end MagpyVerif.C19
